@@ -39,6 +39,11 @@ class WH(progx.InlineHooks):
 
     def call(self, p, args, e):
         segs = p.split("::")
+        if len(segs) >= 2:
+            from ..symeval import _type_alias
+            al_ = _type_alias(segs[-2])         # a private alias of a tracker type names its constructor too
+            if al_:
+                segs = segs[:-2] + [al_.split("<")[0].split("::")[-1], segs[-1]]
         if segs[-2:] in (["ExtInstSetTracker", "new"], ["TypeTracker", "new"]) and not args:
             t = ("tracker", segs[-2], [])
             return t
